@@ -493,6 +493,8 @@ func (m *sim) apply(s *scriptScn, idx int, a act, r actRes, results []actRes) {
 	case "await":
 		m.note(i, "waiting for the Mux to close its trunk after the fault", r)
 	case "unblock":
+		m.ev(i, "EvUnblock", obsOf(r, true))
+		m.note(i, "Unblock", r)
 		sd.blocked = false
 		sd.unread = 0
 		p := sd.pend
